@@ -75,7 +75,16 @@ func init() {
 		return Ite(App(lt, SBool, a[0], a[1]), IntLit(-1), Ite(App(lt, SBool, a[1], a[0]), IntLit(1), IntLit(0)))
 	}))
 	add("strings.Join", "opaque function of the slice contents", pureOpaque("join"))
-	add("strings.Split", "opaque", pureOpaque("split"))
+	add("strings.Split", "opaque contents; the result is a newly allocated slice", func(x *Exec, st *State, fr *Frame, call *ssa.Call, args []Val) ([]*State, bool) {
+		pre := st.alloc
+		succ, ok := x.opaqueResult(st, fr, call, "split")
+		if r := fr.vals[call]; r.T != nil && r.T.Sort == SSlice {
+			st.assume(Cmp(">=", SlArr(r.T), pre))
+			st.assume(Cmp("<", SlArr(r.T), st.alloc))
+			st.assume(Eq(SlOff(r.T), IntLit(0)))
+		}
+		return succ, ok
+	})
 	add("(*math/rand.Rand).Float64", "value in [0,1); generator state private", func(x *Exec, st *State, fr *Frame, call *ssa.Call, args []Val) ([]*State, bool) {
 		v := x.freshVar("rand", SReal)
 		st.assume(And(Cmp(">=", v, RealLitStr("0")), Cmp("<", v, RealLitStr("1"))))
